@@ -188,7 +188,7 @@ def slice_sweep(ctx):
   import time
   from harness.props import symcore_gen as G
   t0 = time.time()
-  ns = ctx.scale([5], [3, 4, 5, 6])
+  ns = ctx.scale([5], [3, 5, 6])
   steps = ctx.scale([None, 2, -2, 3], [None, 1, 2, 3, -1, -2, -3])
   n = 0
   for kind, case in slice_cases(ns, steps, full=ctx.thorough):
@@ -196,7 +196,7 @@ def slice_sweep(ctx):
     n += 1
   # random histories that mix slice operations with everything else
   g = G.Gen(ctx.rng, cycles=True, slices=True)
-  m = ctx.scale(300, 6000)
+  m = ctx.scale(300, 3000)
   for _ in range(m):
     _run_oracle_only(ctx, g.case(10), 'random-history')
   ctx.extra['slice_sweep'] = dict(oracle_only=True, systematic_cases=n, random_histories=m,
